@@ -65,7 +65,7 @@ func run(prop, tier, repo, verif, dump string, seed int, start time.Time) (code 
 	}
 	loadS := time.Since(start).Seconds()
 	if dump != "" {
-		if dump == "names" { core.DumpNames(w) } else if dump == "signatures" { core.DumpSignatures(w) } else { core.Dump(w, dump) }
+		if dump == "names" { core.DumpNames(w) } else if dump == "signatures" { core.DumpSignatures(w) } else if dump == "callers" { core.DumpSoleCallers(w) } else { core.Dump(w, dump) }
 		return 0
 	}
 	fn, ok := rules.All[prop]
